@@ -43,18 +43,20 @@ pub fn probe(ctx: &Ctx) {
             _ => rng.unit() as f32,
         };
         // the exponents the library uses, small integers, and anything in [-80, 80]
+        // every eighth base is tiny, so that results in the subnormal range occur
+        let x = if i % 8 == 5 { (10f64.powf(-rng.range(10.0, 19.0))) as f32 } else { x };
         let y = match i % 3 {
             0 => rng.pick(&LIB_EXPONENTS),
             1 => (rng.below(17) as f32) - 8.0,
             _ => rng.range(-80.0, 80.0) as f32,
         };
         let (pa, pb) = (powf(x, y), x.powf(y));
-        // compare where libm's result is a normal number (near over/underflow an ulp count says little)
-        let a = if pb.is_normal() { ulps(pa, pb) } else { 0 };
+        // in an exact build the helper *is* libm, also where libm underflows gradually; only infinite / NaN results are left out
+        let a = if pb.is_finite() && pb != 0.0 { ulps(pa, pb) } else { 0 };
         if a > worst[0].0 {
             worst[0] = (a, x, y);
         }
-        let xe = rng.range(-87.0, 88.0) as f32;
+        let xe = if i % 8 == 0 { rng.range(-103.0, -87.0) } else { rng.range(-87.0, 88.0) } as f32;
         let b = ulps(expf(xe), xe.exp());
         if b > worst[1].0 {
             worst[1] = (b, xe, 0.0);
@@ -137,6 +139,15 @@ pub fn dump(ctx: &Ctx) {
         cv.push(cbrtf(f32::from_bits(rng.below(0x7F00_0000) as u32 + 0x0080_0000)));
     }
     push("powf:lib-exponents".into(), pv, 2.5e-4 + 8e-6 * 78.84375, "rel", &mut out);
+    // a zero base: every build must agree on 0^y (1 for y = 0, 0 for the exponents >= 1/2.4 that the curves use) within 1e-6;
+    // smaller exponents are left out: the fast log2 saturates at -127 for a zero base, outside powf's contract domain
+    let mut zv = Vec::new();
+    for x in [0.0f32, -0.0] {
+        for y in [0.0f32, -0.0, 0.5, 1.0, 2.0, 2.4, 1.0 / 2.4, 80.0] {
+            zv.push(powf(x, y));
+        }
+    }
+    push("powf:zero-base".into(), zv, 1e-6, "abs", &mut out);
     push("expf:[-85,85]".into(), evs, 1e-5, "rel", &mut out);
     push("cbrtf:normals".into(), cv, 2.4e-7, "rel", &mut out);
 
